@@ -128,6 +128,10 @@ def fit_histories(tier, seed=0):
                     steps.append(st)
                 hs.append(("random_%d" % i, steps + [obs]))
         H[comp] = (lib, obs, hs)
+    # a run that ranks nothing (every likelihood non-finite) after a completed run that ranked something, same directory and names
+    obs_z = {"op": "stages", "comp": 3, "rewrite": "zeroerr"}
+    H["3 (all likelihoods non-finite)"] = (lib, obs_z, [("ranked_run_then_run_that_ranks_nothing", [{"op": "stages", "comp": 3}, obs_z]),
+                                                        ("run_that_ranks_nothing_twice", [obs_z, obs_z])])
     return H
 
 
@@ -154,10 +158,11 @@ def check(run):
                       {"root": run.fresh_copy(), "timeout": 1500}))
     # ------------------------------------------------------------------ fitting
     FH = fit_histories(tier, run.seed)
-    frefs = harness_many(run, [("rt_c16.py", {"mode": "fit", "history": "fresh", "comp": comp, "steps": lib + [obs], "seed": run.seed},
+    frefs = harness_many(run, [("rt_c16.py", {"mode": "fit", "history": "fresh", "comp": obs["comp"], "steps": lib + [obs], "seed": run.seed},
                                 {"root": run.fresh_copy(), "timeout": 1500}) for comp, (lib, obs, hs) in FH.items()], workers=4)
     fcalls = []
     for (comp, (lib, obs, hs)), r in zip(FH.items(), frefs):
+        fkey, comp = comp, obs["comp"]
         if r.get("machinery_error") or r["failures"] or len(r.get("files", {})) < 7:
             raise CheckerError("C16: reference fitting run (complexity %d) failed: %s" % (
                 comp, r.get("machinery_error") or r["failures"] or "only files %s" % sorted(r.get("files", {}))))
@@ -198,7 +203,7 @@ def check(run):
     run.add_bounded("fitting stages after a history == the stages from empty output directories in a fresh process (bytewise)",
                     "esr/fitting/test_all.py, test_all_Fisher.py, match.py, combine_DL.py ::main",
                     "complexities %s of core_maths, Gaussian likelihood, 20 points; histories: %s" % (
-                        sorted(FH), ", ".join(n for n, _ in list(FH.values())[0][2])),
+                        sorted(map(str, FH)), ", ".join(n for n, _ in list(FH.values())[0][2])),
                     len(fcalls), sum(r.get("distinct", 0) for r in fres), nfail, note="cases = histories; distinct = files compared")
     run.sample("history other_basis_first: gen(ext_maths, 3) -> gen(core_maths, 4) in one process; 18 files of compl_4 compared with the fresh run")
     run.sample("history stale_outputs_with_more_content: stage outputs of complexity 4 copied to the complexity-3 names before the observed stages")
